@@ -279,10 +279,21 @@ pub fn build(c: &FCase, openq: &Quirks) -> Built {
         emit(&mut rn, &mut code, mov16(R16::AX, b.flags & !TF));
         emit(&mut rn, &mut code, Insn::new("push", vec![Opd::R16(R16::AX)]));
         emit(&mut rn, &mut code, Insn::new("popf", vec![]));
+        // DS and ES are loaded from a register or, in every other block, through the stack (PUSH AX / POP DS)
         emit(&mut rn, &mut code, mov16(R16::AX, b.segs[0]));
-        emit(&mut rn, &mut code, movsr(Seg::DS, R16::AX));
+        if b.vals[5] & 0x10 == 0 {
+            emit(&mut rn, &mut code, movsr(Seg::DS, R16::AX));
+        } else {
+            emit(&mut rn, &mut code, Insn::new("push", vec![Opd::R16(R16::AX)]));
+            emit(&mut rn, &mut code, Insn::new("pop", vec![Opd::Sr(Seg::DS)]));
+        }
         emit(&mut rn, &mut code, mov16(R16::AX, b.segs[1]));
-        emit(&mut rn, &mut code, movsr(Seg::ES, R16::AX));
+        if b.vals[5] & 0x20 == 0 {
+            emit(&mut rn, &mut code, movsr(Seg::ES, R16::AX));
+        } else {
+            emit(&mut rn, &mut code, Insn::new("push", vec![Opd::R16(R16::AX)]));
+            emit(&mut rn, &mut code, Insn::new("pop", vec![Opd::Sr(Seg::ES)]));
+        }
         for (i, reg) in [R16::BX, R16::CX, R16::DX, R16::BP, R16::SI, R16::DI].iter().enumerate() {
             let idx = [1usize, 2, 3, 5, 6, 7][i];
             emit(&mut rn, &mut code, mov16(*reg, r[idx]));
